@@ -197,6 +197,9 @@ func parseArrayType(s string) (isArray bool, baseType string, fixedSize int) {
 	}
 	leftBracketIndex := strings.Index(s, "[")
 	rightBracketIndex := strings.Index(s, "]")
+	if rightBracketIndex < leftBracketIndex {
+		return false, "", 0
+	}
 	baseType = s[:leftBracketIndex]
 	size := s[leftBracketIndex+1 : rightBracketIndex]
 	if size == "" {
